@@ -5,6 +5,7 @@ import (
 	"errors"
 	"fmt"
 	"io"
+	"io/fs"
 	"net/http"
 	"strings"
 	"sync"
@@ -99,6 +100,17 @@ func buildReal(v int) (types.TemplateManager, error) {
 
 var errBuild = errors.New("build failed")
 
+// buildFailure: what a failing build returns — the marker error joined with the kinds of error real builders produce
+// (a vanished directory, a permission problem, a truncated file, a cancelled context, even a template-not-found error)
+func buildFailure(k int) error {
+	// (histories make at most nine builds: every kind must be reachable with few of them)
+	causes := []error{nil, fs.ErrNotExist, html.ErrTplNotFound, fs.ErrNotExist, fs.ErrPermission, context.Canceled, io.ErrUnexpectedEOF, fs.ErrNotExist, io.EOF}
+	if c := causes[k%len(causes)]; c != nil {
+		return errors.Join(errBuild, &fs.PathError{Op: "open", Path: "views", Err: c})
+	}
+	return errBuild
+}
+
 type respWriter struct {
 	h  http.Header
 	sb strings.Builder
@@ -129,9 +141,9 @@ func runReloadHistory(hot bool, first bool, ops string) (line string, c18 string
 		if calls%2 == 1 {
 			// the idiom `return m, m.ParseWithSuffix(...)`: a failed build hands back a half-built, non-nil manager
 			// together with its error; it must never be put in service
-			return fakeMgr{-calls}, errBuild
+			return fakeMgr{-calls}, buildFailure(calls)
 		}
-		return nil, errBuild
+		return nil, buildFailure(calls)
 	}
 	r, err := tpl.NewHTMLRender(builder, tpl.WithHotReload(hot))
 	var ans []string
@@ -339,7 +351,7 @@ func runReloadConc(first bool, threads string, sched []int) (line string, c18 st
 			}
 			return fakeMgr{c}, nil
 		}
-		return fakeMgr{-c}, errBuild
+		return fakeMgr{-c}, buildFailure(c)
 	}
 	r, err := tpl.NewHTMLRender(builder)
 	cur := 0 // reference: the set in service
